@@ -2,6 +2,7 @@ import SiaModel.Policy.Verify
 import SiaModel.Policy.Meaning
 import SiaModel.Policy.Address
 import SiaModel.Policy.Codec
+import SiaModel.Policy.Txn
 import SiaModel.Gen.FactsPolicy
 import SiaProofs.Lemmas.PolicyLimits
 import SiaProofs.Lemmas.PolicyWitness
@@ -438,6 +439,77 @@ example (K : ByteArray) (hK : K.size < 18446744073709551616) :
   have := c14_address_injective_on_uc _ _ _ MTree.hashInj_free _ _ (wf _ (by decide)) (wf _ (by decide)) e
   simp at this
   exact spec_ed_ne_entropy this
+
+/-! ## Lifted to transactions: every input is verified -/
+
+theorem validateInputsFrom_ok_iff (H : ByteArray → ByteArray) (E : Env) (idx : Nat) (ins : List TxInput) :
+    validateInputsFrom H E idx ins = .ok () ↔
+      ∀ i ∈ ins, addressWith H i.policy = i.parentAddress ∧ verify E i.policy i.sigs i.pres = .ok () := by
+  induction ins generalizing idx with
+  | nil => simp [validateInputsFrom]
+  | cons i rest ih =>
+    simp only [validateInputsFrom, validateSpendPolicy, List.mem_cons, forall_eq_or_imp]
+    by_cases ha : addressWith H i.policy = i.parentAddress
+    · cases hv : verify E i.policy i.sigs i.pres with
+      | error e => simp [ha]
+      | ok u => cases u; simp [ha, ih]
+    · simp [ha]
+
+/-- **A transaction is accepted (as far as spend policies go) exactly when EVERY input's policy
+    is the one its parent's address commits to and is satisfied by that input's own witnesses**
+    — no input can ride on another's verification, whether they share an address, a key, or the
+    very same `SatisfiedPolicy`. With `c14_verify_iff_meaning`: … exactly when every input's
+    policy holds (`Sat`, nothing left over) within the complexity limits. -/
+theorem c14_transaction_inputs_all_verified (H : ByteArray → ByteArray) (E : Env) (ins : List TxInput) :
+    (validateInputs H E ins = .ok () ↔
+      ∀ i ∈ ins, addressWith H i.policy = i.parentAddress ∧ verify E i.policy i.sigs i.pres = .ok ()) ∧
+    ((∀ i ∈ ins, SaneTimes E i.policy.leaves) →
+      (validateInputs H E ins = .ok () ↔
+        ∀ i ∈ ins, addressWith H i.policy = i.parentAddress ∧ Sat E i.policy i.sigs i.pres [] [] ∧
+          i.policy.subCount ≤ maxPolicies ∧ i.policy.breadthLe maxChildren = true)) := by
+  refine ⟨validateInputsFrom_ok_iff H E 0 ins, fun hT => ?_⟩
+  rw [validateInputs, validateInputsFrom_ok_iff]
+  constructor
+  · intro h i hi
+    exact ⟨(h i hi).1, (c14_verify_iff_meaning E i.policy i.sigs i.pres (hT i hi)).1 (h i hi).2⟩
+  · intro h i hi
+    exact ⟨(h i hi).1, (c14_verify_iff_meaning E i.policy i.sigs i.pres (hT i hi)).2 (h i hi).2⟩
+
+/-- two inputs at the same address with the same policy: a good one first does not excuse a bad
+    one (and vice versa) -/
+example :
+    let E : Env := { height := 10, median := 100, sigHash := ⟨#[7]⟩, verifySig := fun k _ s => k == s, sha := id }
+    let p := Policy.pk ⟨#[1]⟩
+    let a := addressWith id p
+    (validateInputs id E [⟨p, [⟨#[1]⟩], [], a⟩, ⟨p, [⟨#[1]⟩], [], a⟩]).isOk = true ∧
+    (validateInputs id E [⟨p, [⟨#[1]⟩], [], a⟩, ⟨p, [⟨#[2]⟩], [], a⟩]).isOk = false ∧
+    (validateInputs id E [⟨p, [⟨#[2]⟩], [], a⟩, ⟨p, [⟨#[1]⟩], [], a⟩]).isOk = false ∧
+    (validateInputs id E [⟨p, [⟨#[1]⟩], [], a⟩, ⟨p, [], [], a⟩]).isOk = false := by
+  refine ⟨by decide +kernel, by decide +kernel, by decide +kernel, by decide +kernel⟩
+
+/-- The shape of the code that the transaction-level model mirrors, read from
+    consensus/validation.go: `validateV2SpendPolicy` is called unconditionally, as a direct
+    statement of the `range` loop over every siacoin / siafund input (no `continue`/`break`), once
+    per function; its body is exactly: address comparison → error, `Policy.Verify(parent height,
+    median timestamp, sigHash, signatures, preimages)` → error, `return nil` — no other branch
+    (memo, cache, skip) and no extra parameter. -/
+theorem tie_consensus_policy_loop :
+    Gen.FactsPolicy.spendPolicyParams =
+      ["ms *MidState", "sigHash types.Hash256", "sp types.SatisfiedPolicy", "parentAddress types.Address",
+       "parentID types.Hash256"] ∧
+    Gen.FactsPolicy.spendPolicyShape = "if-chain;return nil" ∧
+    Gen.FactsPolicy.spendPolicyChain =
+      ["sp.Policy.Address() != parentAddress => error",
+       "err := sp.Policy.Verify(ms.base.Index.Height, ms.base.medianTimestamp(), sigHash, sp.Signatures, sp.Preimages); err != nil => error"] ∧
+    Gen.FactsPolicy.siacoinPolicyLoop =
+      ["for i, sci := range txn.SiacoinInputs",
+       "unconditional: err := validateV2SpendPolicy(ms, sigHash, sci.SatisfiedPolicy, sci.Parent.SiacoinOutput.Address, types.Hash256(sci.Parent.ID)); err != nil",
+       "continue/break in loop: 0", "calls in function: 1"] ∧
+    Gen.FactsPolicy.siafundPolicyLoop =
+      ["for i, sfi := range txn.SiafundInputs",
+       "unconditional: err := validateV2SpendPolicy(ms, sigHash, sfi.SatisfiedPolicy, sfi.Parent.SiafundOutput.Address, types.Hash256(sfi.Parent.ID)); err != nil",
+       "continue/break in loop: 0", "calls in function: 1"] := by
+  refine ⟨by decide, by decide, by rfl, by rfl, by rfl⟩
 
 /-! ## Decoder nesting limit -/
 
